@@ -991,3 +991,219 @@ func chainNameAgrees(pk *packages.Package, fd *ast.FuncDecl, e ast.Expr, col str
 	}
 	return false, false
 }
+
+// R9DBAnswers — existence answers come from the database, or from a cache that every delete keeps in step.
+func R9DBAnswers(c *Ctx) {
+	const rule = "R9-db-answers"
+	c.R.Rule(rule, "in pkg/db every path on which a boolean *Exist method returns true passes a database/sql call of that invocation; a true answer given without asking (a remembered row) is accepted only when the remembering field of DB is also written by every function of the package that executes a DELETE statement — otherwise a removed row is still reported present and the next insert of it is skipped", 3)
+	var fns []*ssa.Function
+	for _, fn := range c.P.ModuleFuncs(func(p string) bool { return p == PkgDB }) {
+		fns = append(fns, fn)
+	}
+	isSQL := func(in ssa.Instruction) bool {
+		ci, ok := in.(ssa.CallInstruction)
+		if !ok {
+			return false
+		}
+		n := CalleeName(ci)
+		return strings.HasPrefix(n, "(*database/sql.") || strings.HasPrefix(n, "database/sql.")
+	}
+	writesField := func(fn *ssa.Function, field string) bool {
+		for _, h := range HelperClosure(fn, 2) {
+			for _, b := range h.Blocks {
+				for _, in := range b.Instrs {
+					switch x := in.(type) {
+					case *ssa.Store:
+						if t, f, _, ok := FieldOf(x.Addr); ok && t == PkgDB+".DB" && f == field {
+							return true
+						}
+					case *ssa.MapUpdate:
+						if DerivesFromNarrowCalls(x.Map, IsFieldLoad(PkgDB+".DB", field)) {
+							return true
+						}
+					case ssa.CallInstruction:
+						if bi, ok := x.Common().Value.(*ssa.Builtin); ok && bi.Name() == "delete" && DerivesFromNarrowCalls(x.Common().Args[0], IsFieldLoad(PkgDB+".DB", field)) {
+							return true
+						}
+						if strings.HasPrefix(CalleeName(x), "(*sync.Map).") && len(x.Common().Args) > 0 {
+							nm := CalleeName(x)
+							if (strings.HasSuffix(nm, ".Delete") || strings.HasSuffix(nm, ".Store") || strings.HasSuffix(nm, ".Clear") || strings.HasSuffix(nm, ".LoadAndDelete")) && DerivesFrom(x.Common().Args[0], IsFieldLoad(PkgDB+".DB", field)) {
+								return true
+							}
+						}
+					}
+				}
+			}
+		}
+		return false
+	}
+	var deleters []*ssa.Function
+	for _, fn := range fns {
+		has := false
+		for _, b := range fn.Blocks {
+			for _, in := range b.Instrs {
+				for _, op := range in.Operands(nil) {
+					if s, ok := ConstString(*op); ok && strings.Contains(strings.ToUpper(s), "DELETE FROM") {
+						has = true
+					}
+				}
+			}
+		}
+		if has {
+			deleters = append(deleters, fn)
+		}
+	}
+	n := 0
+	for _, fn := range fns {
+		if fn.Signature.Recv() == nil || !strings.HasSuffix(fn.Name(), "Exist") || fn.Signature.Results().Len() != 1 || !isBoolType(fn.Signature.Results().At(0).Type()) {
+			continue
+		}
+		// blocks reachable from the entry without executing a database call
+		free := map[*ssa.BasicBlock]bool{}
+		var stack []*ssa.BasicBlock
+		if len(fn.Blocks) > 0 {
+			stack = append(stack, fn.Blocks[0])
+		}
+		for len(stack) > 0 {
+			b := stack[len(stack)-1]
+			stack = stack[:len(stack)-1]
+			if free[b] {
+				continue
+			}
+			asks := false
+			for _, in := range b.Instrs {
+				if isSQL(in) {
+					asks = true
+				}
+			}
+			if asks {
+				continue
+			}
+			free[b] = true
+			stack = append(stack, b.Succs...)
+		}
+		n++
+		construct := "true only after asking the database"
+		var offending *ssa.BasicBlock
+		for _, b := range fn.Blocks {
+			ret, ok := b.Instrs[len(b.Instrs)-1].(*ssa.Return)
+			if !ok || !free[b] {
+				continue
+			}
+			if isBoolConst(ret.Results[0], false) {
+				continue
+			}
+			offending = b
+		}
+		if offending == nil {
+			c.R.Ok(rule, FuncShort(fn), construct, c.pos(fn.Pos()), "every true answer follows a query of this call", true)
+			continue
+		}
+		// which DB fields decide that path?
+		fields := map[string]bool{}
+		for _, f := range FactsAt(offending) {
+			DerivesFrom(f.Cond, func(v ssa.Value) bool {
+				if t, fl, _, ok := FieldOf(derefOr(v)); ok && t == PkgDB+".DB" && fl != "db" {
+					fields[fl] = true
+				}
+				return false
+			})
+		}
+		why := ""
+		if len(fields) == 0 {
+			why = "a true answer is returned without any database call"
+		}
+		for fl := range fields {
+			for _, d := range deleters {
+				if !writesField(d, fl) {
+					why = "a true answer is taken from DB." + fl + " without a query, and " + FuncShort(d) + ", which deletes rows, never updates that field: a removed row keeps being reported as present"
+				}
+			}
+		}
+		if why == "" {
+			c.R.Ok(rule, FuncShort(fn), construct, c.pos(fn.Pos()), "remembered answers are invalidated by every deleting function", true)
+		} else {
+			c.R.Bad(rule, FuncShort(fn), construct, c.pos(offending.Instrs[len(offending.Instrs)-1].Pos()), why)
+		}
+	}
+	if n == 0 {
+		c.R.Anchor(rule, "the *Exist methods of db.DB")
+	}
+}
+
+// R9PersistAfterMark — a liveness change made next to AgentUpdate is part of what AgentUpdate writes.
+func R9PersistAfterMark(c *Ctx) {
+	const rule = "R9-persist-after-mark"
+	c.R.Rule(rule, "in cmd/server, a function that both changes an agent's persisted liveness (store to Agent.Active or Agent.Reason) and persists that agent (AgentUpdate) does the change first: from every such store every path to the function's end passes an AgentUpdate call — a row written before the flag is flipped keeps the old state and the agent comes back alive after a restart", 1)
+	n := 0
+	for _, fn := range c.P.ModuleFuncs(func(p string) bool { return p == PkgServer }) {
+		var updates []*ssa.BasicBlock
+		updIdx := map[*ssa.BasicBlock]int{}
+		EachCall(fn, func(call ssa.CallInstruction) {
+			if strings.HasSuffix(CalleeName(call), ".AgentUpdate") {
+				in := call.(ssa.Instruction)
+				updates = append(updates, in.Block())
+				if i := InstrBlockIndex(in); i > updIdx[in.Block()] {
+					updIdx[in.Block()] = i
+				}
+			}
+		})
+		if len(updates) == 0 {
+			continue
+		}
+		isUpd := map[*ssa.BasicBlock]bool{}
+		for _, b := range updates {
+			isUpd[b] = true
+		}
+		for _, b := range fn.Blocks {
+			for i, in := range b.Instrs {
+				st, ok := in.(*ssa.Store)
+				if !ok {
+					continue
+				}
+				t, f, _, ok := FieldOf(st.Addr)
+				if !ok || t != PkgAgent+".Agent" || (f != "Active" && f != "Reason") {
+					continue
+				}
+				n++
+				construct := "Agent." + f + " changed before AgentUpdate"
+				// an update later in the same block?
+				if isUpd[b] && updIdx[b] > i {
+					c.R.Ok(rule, FuncShort(fn), construct, c.pos(st.Pos()), "persisted afterwards", true)
+					continue
+				}
+				// can the end be reached from here without passing an update block?
+				leak := false
+				seen := map[*ssa.BasicBlock]bool{}
+				var walk func(x *ssa.BasicBlock)
+				walk = func(x *ssa.BasicBlock) {
+					if seen[x] || leak {
+						return
+					}
+					seen[x] = true
+					if isUpd[x] && x != b {
+						return
+					}
+					if len(x.Succs) == 0 {
+						if _, isRet := x.Instrs[len(x.Instrs)-1].(*ssa.Return); isRet {
+							leak = true
+						}
+						return
+					}
+					for _, s := range x.Succs {
+						walk(s)
+					}
+				}
+				walk(b)
+				if leak {
+					c.R.Bad(rule, FuncShort(fn), construct, c.pos(st.Pos()), "the function can end after this change without an AgentUpdate: the row it persisted earlier does not contain it")
+				} else {
+					c.R.Ok(rule, FuncShort(fn), construct, c.pos(st.Pos()), "every path to the end persists the agent afterwards", true)
+				}
+			}
+		}
+	}
+	if n == 0 {
+		c.R.Anchor(rule, "a cmd/server function that changes Agent.Active/Reason and calls AgentUpdate")
+	}
+}
